@@ -24,8 +24,9 @@ TRUSTED = [
     "by this run's observational correspondence",
     "modelled primitive: torch dense indexing x[index] along dim 0 = Python-list positions (Lib/PySlice.v "
     "py_positions), validated against torch by every case of this run",
-    "section hypothesis H_ragged_select_refines of Props/C07.v (= theorems mnt_select_refines / met_select_refines of "
-    "Props/C05.v): its instances are evaluated on every correspondence case (c07_stmt)",
+    "the ragged columns use the C05 refinement lemmas (Proofs/MntProofs.v mnt_select_refines_proof, Proofs/MetProofs.v "
+    "met_select_refines_proof) -- no section hypothesis is left; the theorem statement itself is additionally evaluated "
+    "on every correspondence case (c07_stmt)",
     "harness/c07.py + harness/frames.py + harness/ragged.py (generator, per-column nested-list oracle, Coq printer)",
 ]
 ASSUMPTIONS = [
@@ -101,11 +102,53 @@ def exhaustive(rng):
 
 
 def generate(rng, tier):
-    n = 700 if tier == "quick" else 20000
+    n = 1000 if tier == "quick" else 20000
     cases = [gen_case(rng, tier) for _ in range(n)]
     if tier == "thorough":
         cases += exhaustive(rng)
     return cases
+
+
+def extra(tier, rng):
+    """The modelled primitive, validated directly: torch indexing x[index] along dim 0 of a dense tensor (2-D features,
+    1-D target, and the (n, 1) dummy of __getitem__) against the positions the same index picks from a Python list --
+    every index expression with bounds in [-n-2, n+2] for n <= 3 (quick) / n <= 4 (thorough)."""
+    import torch
+    fails, count = [], 0
+    for n in range(0, 4 if tier == "quick" else 5):
+        rv = list(range(-n - 2, n + 3))
+        idxs = []
+        for a, b in itertools.product([None] + rv, repeat=2):
+            for s in (None, 1, 2, 3, 0, -1):
+                idxs.append({"t": "slice", "a": a, "b": b, "s": s})
+        for l in itertools.chain.from_iterable(itertools.product(rv, repeat=k) for k in range(0, 3)):
+            idxs.append({"t": "tensor", "l": list(l)})
+            idxs.append({"t": "list", "l": list(l)})
+        for m in itertools.chain.from_iterable(itertools.product([False, True], repeat=k) for k in (max(n - 1, 0), n, n + 1)):
+            idxs.append({"t": "mask", "m": list(m)})
+        for a, b in itertools.product(rv, repeat=2):
+            for s in (1, 2, -1, -2):
+                idxs.append({"t": "range", "a": a, "b": b, "s": s})
+        tensors = {"2d": torch.arange(n * 2).reshape(n, 2), "1d": torch.arange(n), "dummy": torch.empty((n, 1))}
+        for ix in idxs:
+            try:
+                want = R.ref_positions(ix, n)
+            except R.RefErr:
+                want = None
+            for name, x in tensors.items():
+                count += 1
+                try:
+                    r = x[R.to_py_index(ix)]
+                    got = r.size(0) if name == "dummy" else (r[:, 0] // 2 if name == "2d" else r).tolist()
+                except Exception:
+                    got = None
+                exp = want if name != "dummy" or want is None else len(want)
+                if got != exp:
+                    fails.append(dict(key="primitive:torch-index", case=None,
+                                      what=f"torch {name} tensor of {n} rows indexed with {ix} gives {got}, the Python "
+                                           f"list semantics the model assumes give {exp}",
+                                      expected=exp, observed=got))
+    return fails[:3], {"torch_index_primitive_checks": count}
 
 
 # ------------------------------------------------------------ implementation
